@@ -128,3 +128,48 @@ Proof. vm_compute. reflexivity. Qed.
 Example C05_ex7 : store_setcol true false true true KMixed (PFloat (FFin false 1 0)) = Ok (VInt 1)
                   /\ store_setcol true true true true KMixed (PFloat (FFin false 1 0)) = Ok (VFlt (FFin false 1 0)).
 Proof. vm_compute. split; reflexivity. Qed.
+
+(* ---- a scalar written to n addressed cells, n = 0 included ----
+   (empty selection, empty slice, empty index list, whole column of a zero-row table, ...) *)
+From DM Require Import Spec.Table.
+
+(* The L1 scalar write (column._tosequence(value, n) on the regenerated dispatch kernels, reached by every scalar
+   write form through pinned setters) refines the L0 right-hand side rhs_cells for every number n of addressed cells:
+   the same exception, or n copies of Python-equal values. *)
+Theorem C05_scalar_n_refines : forall (k : kind) (n : nat) (v : pyv), pyv_wf v = true ->
+  match store_scalar_n k n v, rhs_cells k n (RScalar v) with
+  | Ok xs, Ok ys => exists x y, xs = repeat x n /\ ys = repeat y n /\ val_eqv x y = true
+  | Raise e1, Raise e2 => e1 = e2
+  | _, _ => False
+  end.
+Proof. exact scalar_n_refines. Qed.
+Print Assumptions C05_scalar_n_refines.
+
+(* The accept / reject verdict of a scalar write does not depend on how many cells are addressed. *)
+Theorem C05_scalar_verdict_any_n : forall (k : kind) (n m : nat) (v : pyv),
+  match store_scalar_n k n v, store_scalar_n k m v with
+  | Ok _, Ok _ => True
+  | Raise e1, Raise e2 => e1 = e2
+  | _, _ => False
+  end.
+Proof. exact scalar_verdict_any_n. Qed.
+Print Assumptions C05_scalar_verdict_any_n.
+
+(* A write that addresses no cell stores nothing and raises exactly when the normal form of the value raises. *)
+Theorem C05_scalar_zero_cells : forall (k : kind) (v : pyv), pyv_wf v = true ->
+  match store_scalar_n k 0 v, nf k v with
+  | Ok xs, Ok _ => xs = nil
+  | Raise e1, Raise e2 => e1 = e2
+  | _, _ => False
+  end.
+Proof. exact scalar_zero_cells. Qed.
+Print Assumptions C05_scalar_zero_cells.
+
+(* non-vacuity: an IntColumn rejects "abc" and a FloatColumn an unsupported object even when no cell is addressed;
+   a FloatColumn accepts "abc" (stored as NaN in every addressed cell) *)
+Example C05_ex8 : store_scalar_n KInt 0 (PStr "abc" None None) = Raise TypeError
+                  /\ rhs_cells KInt 0 (RScalar (PStr "abc" None None)) = Raise TypeError
+                  /\ store_scalar_n KFloat 0 POther = Raise TypeError
+                  /\ store_scalar_n KFloat 0 (PStr "abc" None None) = Ok nil
+                  /\ store_scalar_n KFloat 2 (PStr "abc" None None) = Ok (VFlt FNan :: VFlt FNan :: nil).
+Proof. vm_compute. repeat split; reflexivity. Qed.
